@@ -126,7 +126,9 @@ class Emitter:
         if k in ("refarr", "cleanrefs"):
             ids = (self.nid(s[1] + ".arraySize"), self.nid(s[1] + ".keepEmptyRefs"), self.nid(s[1] + ".refs"), self.nid(s[1] + ".refs[].index"))
             if k == "refarr":
-                return "(SRefArr %d %d %d %d %s %d)" % (ids + (self.idx(s[2]), s[3]))
+                lv = self.lid("refarr_j%d" % len(s[2]))
+                inner = "(SRef %d %s)" % (ids[3], self.idx(list(s[2]) + [("local", "refarr_j%d" % len(s[2]))]))
+                return "(SSeq (SRefArrHead %d %d %d %d %s %d) (SFor %d (ESize %d %s) %s))" % (ids + (self.idx(s[2]), s[3], lv, ids[2], self.idx(s[2]), inner))
             return "(SCleanRefs %d %d %d %d %s)" % (ids + (self.idx(s[2]),))
         if k == "vecsize":
             return "(SVecSize %d %s %d %d)" % (self.nid(s[1]), self.idx(s[2]), s[3], self.lid(s[4]))
